@@ -397,6 +397,17 @@ func (fr *Frame) applyContract(ct *FuncContract, fn *ssa.Function, sig *types.Si
 		}
 		fx.oblige(st, "pre", site+"."+clauseLabel(c, i), g, pos)
 	}
+	// recursion: the measure of the callee's arguments is non-negative and smaller than the caller's own measure
+	if fn != nil && fn == fx.fn && fr.top && ct.Decreases != nil && fx.entry != nil {
+		mc, err1 := env.evalTerm(ct.Decreases.Expr)
+		own := fr.specEnv(fx.entry, nil, nil)
+		me, err2 := own.evalTerm(ct.Decreases.Expr)
+		if err1 != nil || err2 != nil {
+			fx.unsupported = append(fx.unsupported, fmt.Sprintf("decreases %q: %v %v", ct.Decreases.Src, err1, err2))
+		} else {
+			fx.oblige(st, "decreases", "recursion", And(Ge(mc, Int(0)), Lt(mc, me)), pos)
+		}
+	}
 	// function-typed arguments must refine the fnspec
 	if fn != nil {
 		for i, p := range fn.Params {
@@ -1096,8 +1107,57 @@ func (fr *Frame) runDefer(i int, st *State) {
 
 
 // intrinsic: library functions modelled directly (none beyond specs at present).
+// intrinsic: library functions modelled by the engine itself. The sort package: the elements of the slice are
+// rearranged — every new element is one of the old ones and every old element is still there (membership in both
+// directions; multiplicities are not modelled), the rest of the backing array is untouched, and sort.Strings /
+// sort.Ints leave the slice ascending. The comparison closure of sort.Slice is assumed to be a side-effect-free
+// total order.
 func (fr *Frame) intrinsic(full string, callee *ssa.Function, args []Val, st *State, pos token.Pos, instr *ssa.Call, resTy types.Type) (Val, bool) {
-	return Val{}, false
+	fx := fr.fx
+	switch full {
+	case "sort.Slice", "sort.SliceStable", "sort.Strings", "sort.Ints":
+	default:
+		return Val{}, false
+	}
+	if instr == nil || len(instr.Call.Args) == 0 {
+		return Val{}, false
+	}
+	var sv ssa.Value = instr.Call.Args[0]
+	slv := args[0]
+	if mi, ok := sv.(*ssa.MakeInterface); ok {
+		sv = mi.X
+		slv = fr.val(mi.X)
+	}
+	stT, ok := sv.Type().Underlying().(*types.Slice)
+	if !ok || isStruct(stT.Elem()) {
+		return Val{}, false
+	}
+	s := fx.materialize(slv, sv.Type())
+	es := sortOf(stT.Elem())
+	inner := ArraySort(SInt, es)
+	key := elemKey(es)
+	arr := fx.heapGet(st, key, ArraySort(SInt, inner))
+	fx.frameWriteGuarded(st, SlBase(s), key, Gt(SlLen(s), Int(1)), pos, fr)
+	oldA := fx.ctx.Define("sort.old", Select(arr, SlBase(s), inner))
+	newA := fx.ctx.Fresh("sort.new", inner)
+	off, ln := SlOff(s), SlLen(s)
+	n := fx.ctx.nfresh
+	qi, qj := smtIdent(fmt.Sprintf("q!si!%d", n)), smtIdent(fmt.Sprintf("q!sj!%d", n))
+	rng := func(q string) string { return fmt.Sprintf("(and (<= 0 %s) (< %s %s))", q, q, ln.S) }
+	at := func(a Term, q string) string { return fmt.Sprintf("(select %s (+ %s %s))", a.S, off.S, q) }
+	fx.ctx.Assert(Term{fmt.Sprintf("(forall ((%s Int)) (=> %s (exists ((%s Int)) (and %s (= %s %s)))))", qi, rng(qi), qj, rng(qj), at(newA, qi), at(oldA, qj)), SBool})
+	fx.ctx.Assert(Term{fmt.Sprintf("(forall ((%s Int)) (=> %s (exists ((%s Int)) (and %s (= %s %s)))))", qi, rng(qi), qj, rng(qj), at(oldA, qi), at(newA, qj)), SBool})
+	qk := smtIdent(fmt.Sprintf("q!sk!%d", n))
+	fx.ctx.Assert(Term{fmt.Sprintf("(forall ((%s Int)) (=> (or (< %s %s) (>= %s (+ %s %s))) (= (select %s %s) (select %s %s))))", qk, qk, off.S, qk, off.S, ln.S, newA.S, qk, oldA.S, qk), SBool})
+	if full == "sort.Strings" || full == "sort.Ints" {
+		le := "<="
+		if es == SString {
+			le = "str.<="
+		}
+		fx.ctx.Assert(Term{fmt.Sprintf("(forall ((%s Int) (%s Int)) (=> (and (<= 0 %s) (< %s %s) (< %s %s)) (%s %s %s)))", qi, qj, qi, qi, qj, qj, ln.S, le, at(newA, qi), at(newA, qj)), SBool})
+	}
+	fx.heapSet(st, key, Store(arr, SlBase(s), newA))
+	return Val{Known: true}, true
 }
 
 func isIntrinsicPure(full string) bool { return false }
@@ -1174,7 +1234,7 @@ func (fr *Frame) anchoredAsserts(name string, c *ssa.CallCommon, st *State, pos 
 				}
 				e2 := env.child()
 				e2.vars["it"] = SVal{V: vals[i], Ty: tys[i]}
-				g, err := e2.evalBool(a.Clause.Expr)
+				g, err := e2.evalGoal(a.Clause.Expr)
 				if err != nil {
 					fx.unsupported = append(fx.unsupported, fmt.Sprintf("assert @%s: %v", a.Anchor, err))
 					continue
@@ -1183,7 +1243,7 @@ func (fr *Frame) anchoredAsserts(name string, c *ssa.CallCommon, st *State, pos 
 			}
 			continue
 		}
-		g, err := env.evalBool(a.Clause.Expr)
+		g, err := env.evalGoal(a.Clause.Expr)
 		if err != nil {
 			fx.unsupported = append(fx.unsupported, fmt.Sprintf("assert @%s: %v", a.Anchor, err))
 			continue
